@@ -94,7 +94,7 @@ func cone(w *World, prop string) []string {
 	set := map[string]bool{}
 	var work []string
 	for k, c := range w.contracts {
-		if contractMentions(c, prop) {
+		if contractMentions(c, prop) || prop == "C20" {
 			set[k] = true
 			work = append(work, k)
 		}
